@@ -131,6 +131,8 @@ def shard_main(pid, tier, seed, i, n):
     t0 = time.time()
     acc = Acc()
     try:
+        if pid.upper() in ('C09', 'C11', 'C12'):
+            os.environ['VF_SCHED_IMPORT'] = '1'      # locks lomond creates at import time become scheduler-aware
         from . import env  # noqa  (imports lomond from the tree under test)
         from . import simnet
         simnet.check_patch_points()
@@ -145,6 +147,10 @@ def shard_main(pid, tier, seed, i, n):
             if time.time() > deadline:
                 truncated = True
                 break
+            if isinstance(case, dict) and case.get('kind') == '__mark__':
+                # this shard has run its whole share of the enumerated block that ends here
+                acc.exhaustive_done[case['name']] = True
+                continue
             case = dec(json.loads(json.dumps(enc(case))))   # what a replay would see
             acc.evaluations += 1
             mod.run_case(case, acc)
@@ -267,8 +273,8 @@ def parent_main(pid, tier, seed):
             lines.append('INCONCLUSIVE property=%s %s' % (pid, m.replace('\n', ' | ')[:1500]))
 
     wall = time.time() - t0
-    complete = not merged.counters.get('truncated_shards') and not merged.inconclusive
-    exhaustive = {k: bool(all(v) and complete) for k, v in exhaustive_done.items()}
+    # a sub-space counts as enumerated completely only if EVERY shard reported having finished its part of it
+    exhaustive = {k: bool(all(v) and len(v) == nsh) for k, v in exhaustive_done.items()}
     cov = dict(
         evaluations=merged.evaluations,
         distinct_nontrivial=len(merged.classes),
@@ -328,6 +334,8 @@ def _static_meta(path):
 
 
 def replay_main(pid, path):
+    if pid.upper() in ('C09', 'C11', 'C12'):
+        os.environ['VF_SCHED_IMPORT'] = '1'
     from . import env  # noqa
     mod = importlib.import_module('vf.props.' + pid.lower())
     rec = json.load(open(path))
